@@ -1,5 +1,5 @@
 From Coq Require Import Extraction ExtrOcamlBasic ZArith List.
-From LP Require Import Num C04_Model C04_State C04_Life C04_Amb.
+From LP Require Import Num C04_Model C04_State C04_Life C04_Amb C04_Print.
 Extraction Language OCaml.
 Extraction "C04_m.ml" vec_of vfill vdot v_op_mul vcross vnorm vadd vsub vadd_assign vsub_assign vscale vdivs s_mul_v veq
   mat_of_entries mat_fill mat_diag identity mat_block m_at delete_row delete_column return_row return_column
@@ -9,4 +9,5 @@ Extraction "C04_m.ml" vec_of vfill vdot v_op_mul vcross vnorm vadd vsub vadd_ass
   v_resize v_assign v_set v_at v_copy v_assign_from v_zero v_default v_normalized v_normalize
   m_resize m_assign m_set m_copy m_assign_from m_zero m_default
   life_m life_v m_mut v_mut life_step life_run
+  v_print m_print
   fenv_default foreign_step foreign_run fenv_diff amb_answer Z.of_nat Z.to_nat.
